@@ -639,6 +639,20 @@ class _Linalg(types.ModuleType):
                 return real(A, *args, **kw)
             return g
 
+        if a == "norm":
+            def nrm(A, *args, **kw):
+                if _has_sym(A) and not args and not kw:
+                    # Frobenius / 2-norm of a vector: sqrt(sum |x|^2)
+                    tot = 0
+                    for e in _oarr(A).ravel():
+                        tot = tot + (e.re * e.re + e.im * e.im if isinstance(e, SC) else e * e)
+                    tot = SV(tot) if not isinstance(tot, (SV, int, float)) else tot
+                    return _st.ENGINE.math.sqrt(tot)
+                if _has_sym(A):
+                    raise Undecided("np.linalg.norm with ord / axis on symbolic data")
+                return real(A, *args, **kw)
+            return nrm
+
         def f(*args, **kw):
             if any(_has_sym(x) for x in args):
                 raise Undecided(f"np.linalg.{a} on symbolic data without a library contract")
